@@ -50,4 +50,14 @@ PROPS["C17"] = {
     ],
 }
 
+PROPS["C12"] = {
+    "lean": ["OlricModel.Props.C12"],
+    "streams": [("kv", (40, 300), (500, 400))],
+    "model": True,
+    "level_text": "Theorems for every reachable store state: a cursor-resumed walk over one table yields every (matching) entry at or after the cursor exactly once for every page size >= 1 (walkTable_complete, by induction, no bound on the table), the hop to the next table picks the least existing coefficient above the current one (never skips a table, ends only when none is left), and the present keys are each in exactly one table. The composition over tables and the client iterator are checked by the kv stream's full and interleaved walks against an independent reference (partial).",
+    "design_ref": "DESIGN.md §6 C12",
+    "modelled": "table.Scan/ScanRegexMatch, kvstore.scanCommon/findCoefficient (Store/Model.lean); regexp matching is a parameter",
+    "assumptions": ["regexp / glob matching is a parameter `m : Rec -> Bool`", "the cluster/embedded iterator (cluster_iterator.go) is not modelled in Lean; exercised by the cluster streams only"],
+}
+
 NOT_CLAIMED = {}
